@@ -110,6 +110,7 @@ package standard
 //@ ensures [table-sep] tableSep(s)
 //@ ensures [notinprogress] !old(account in s.generations) ==> result2 == ErrNotInProgress
 //@ ensures [deleted] result2 == nil ==> !(account in s.generations) && old(account in s.generations)
+//@ ensures [allcontributed] result2 == nil ==> (forall k int :: 0 <= k && k < len(old(s.generations[account]).participants) ==> old(s.generations[account]).participants[k].ID in old(s.generations[account]).sharedSecrets)
 //@ ensures [counts] result2 == nil ==> len(old(s.generations[account]).sharedSecrets) == len(old(s.generations[account]).participants) && len(old(s.generations[account]).sharedVVecs) == len(old(s.generations[account]).participants)
 //@ ensures [others] forall a string :: a != account ==> ((a in s.generations) <==> old(a in s.generations)) && s.generations[a] == old(s.generations[a])
 //@ hint-after getGeneration@1 [oldinv] forall a string :: a in s.generations ==> genInv(s.generations[a]) && s.generations[a] == old(s.generations[a]) && old(a in s.generations)
